@@ -122,8 +122,8 @@ def functions_used(n, acc=None):
 NUMH = ["a", "b"]  # numeric-ish columns
 STRH = ["c", "d"]  # text columns
 ALLH = NUMH + STRH
-INT_TERMS = [0, 1, 2, 3, 5, 9, 10, 11, 100]
-STR_TERMS = ["abc", "x", "Q", "ab", "b c", "zz"]
+INT_TERMS = [0, 1, 2, 3, 5, 9, 10, 11, 100, -1, 1000]
+STR_TERMS = ["abc", "x", "Q", "ab", "b c", "zz", "x.y", "[z]"]
 
 
 class Gen:
@@ -145,6 +145,8 @@ class Gen:
             opts = [("hdr", "a"), ("hdr", "b"), ("hdr", "a"), ("hdr", "b"), ("int", r.choice(INT_TERMS))]
             if r.random() < 0.1:
                 opts.append(("hdr", r.choice(["0", "1"])))
+            if r.random() < 0.08:
+                opts.append(("hdr", "A"))  # a capitalised twin of header a (a fifth column in some files)
             opts += [("var", v, None) for v in self.nvars]
             opts += [("fn", "get", [("str", v)], []) for v in self.nvars[:1]]
             opts += [("var", v, r.choice(["True", "False"])) for v in self.countvars[:2]]
@@ -187,7 +189,10 @@ class Gen:
         if f == "end":
             return ("fn", "end", [] if r.random() < 0.5 else [("int", r.choice([0, 1, 2]))], [])
         if f == "concat":
-            return ("fn", "concat", [self.strv(d - 1), self.strv(d - 1)], [])
+            args = [self.strv(d - 1), self.strv(d - 1)]
+            if r.random() < 0.25:
+                args.append(self.strv(d - 1))
+            return ("fn", "concat", args, [])
         if f == "substring":
             return ("fn", "substring", [self.strv(d - 1, term_ok=False), ("int", r.choice([0, 1, 2, 5]))], [])
         return ("fn", f, [self.strv(d - 1, term_ok=False)], [])
@@ -251,7 +256,10 @@ class Gen:
         if f in ("empty", "exists"):
             return ("fn", f, [("hdr", r.choice(ALLH + ["3", "4"]))], [])
         if f in ("all", "missing"):
-            return ("fn", f, [("hdr", r.choice(ALLH)), ("hdr", r.choice(ALLH))], [])
+            args = [("hdr", r.choice(ALLH)), ("hdr", r.choice(ALLH))]
+            if r.random() < 0.3:
+                args.append(("hdr", r.choice(ALLH + ["A"])))
+            return ("fn", f, args, [])
         if f == "starts_with":
             return ("fn", "starts_with", [self.strv(d - 1, term_ok=False), ("str", r.choice(["a", "ab", "Q", "x"]))], [])
         if f == "eqn":
@@ -485,8 +493,11 @@ class Gen:
 
 def data_rows(r, header_prob=0.85, nmax=8):
     rows = []
+    twin = r.random() < 0.15  # a fifth column whose header differs from 'a' only in capitalisation
     if r.random() < header_prob:
-        rows.append(["a", "b", "c", "d"])
+        rows.append(["a", "b", "c", "d"] + (["A"] if twin else []))
+    else:
+        twin = False
     nums = ["0", "1", "2", "3", "5", "9", "10", "11", "100", "7", "12"]
     for i in range(r.randint(1, nmax)):
         x = r.random()
@@ -497,7 +508,7 @@ def data_rows(r, header_prob=0.85, nmax=8):
         b = r.choice(nums) if r.random() < 0.94 else r.choice(["", "2.5", "-1", "-1"])
         c = r.choice(["abc", "x", "Q", "ab", " x ", "ABC", "zz", "b c", "abc", "x"]) if r.random() < 0.96 else ""
         d = r.choice(["abc", "q", "b c", "X", "x"]) if r.random() < 0.96 else ""
-        row = [a, b, c, d]
+        row = [a, b, c, d] + ([r.choice(["41", "42", "77"])] if twin else [])
         y = r.random()
         if y < 0.05:
             row = row[: r.choice([1, 2, 3])]
